@@ -55,6 +55,32 @@ def header? (h : String) : Option Kind :=
     else none
   | _ => none
 
+/-- element types of buffer objects: name ↦ (code, is `array.array` or read-only: contiguous only) -/
+def dtype? (s : String) : Option (Nat × Bool) :=
+  match s with
+  | "f8" => some (0, false) | "i8" => some (1, false) | "i4" => some (2, false) | "i2" => some (3, false)
+  | "i1" => some (4, false) | "u1" => some (5, false) | "u2" => some (6, false) | "f4" => some (7, false)
+  | "ro" => some (8, true)
+  | "ad" => some (0, true) | "al" => some (1, true) | "ai" => some (2, true) | "ah" => some (3, true)
+  | "ab" => some (4, true) | "aB" => some (5, true) | "aH" => some (6, true) | "af" => some (7, true)
+  | _ => none
+
+def lay? (s : String) : Option Lay :=
+  match s with
+  | "c" => some .c | "s2" => some .s2 | "col" => some .col | "r" => some .r | "r2" => some .r2
+  | _ => none
+
+/-- `nb_<element type>_<layout>`: doubles (also read-only) construct, every other element type is rejected -/
+def nbHow? (s : String) : Option CtorHow :=
+  match s.splitOn "_" with
+  | ["nb", dt, lay] => do
+    let (code, special) ← dtype? dt
+    let l ← lay? lay
+    if special && l != .c then pure .nakind
+    else if code == 0 || code == 8 then pure (.buf l.stride)
+    else pure (.badbuf code)
+  | _ => none
+
 def how? (s : String) : Option CtorHow :=
   match s with
   | "list" => some .list | "tuple" => some .tuple | "args" => some .args
@@ -62,8 +88,8 @@ def how? (s : String) : Option CtorHow :=
   | "nps2" => some (.buf 2) | "nps3" => some (.buf 3) | "npsm1" => some (.buf (-1)) | "npsm2" => some (.buf (-2))
   | "fac" => some .fac
   | "ilist" => some .ilist | "ituple" => some .ituple | "iargs" => some .iargs
-  | "npi" | "npf32" | "np2d" => some .badbuf
-  | _ => none
+  | "npi" => some (.badbuf 1) | "npf32" => some (.badbuf 7) | "np2d" => some (.badbuf 0)
+  | s => nbHow? s
 
 /-- Python kind of a vector operand -/
 def okind? (s : String) : Option OKind :=
@@ -147,15 +173,19 @@ def vseg? (sg : String) : Option VOp :=
   | ["aget", a, i] => do pure (.aget (← a? a) (← int? i))
   | ["aset", a, i, k] => do pure (.aset (← a? a) (← int? i) (← int? k))
   | ["alist", a] => do pure (.alist (← a? a))
-  | ["nscale", a, k] => do pure (.nscale (← a? a) (← int? k))
-  | ["nset", a, i, k] => do pure (.nset (← a? a) (← int? i) (← int? k))
-  | ["nget", a, i] => do pure (.nget (← a? a) (← int? i))
-  | ["nnorms", a] => do pure (.nnorms (← a? a))
-  | ["naxpy", a, k, b] => do pure (.naxpy (← a? a) (← int? k) (← a? b))
-  | ["nadd", a, b] => do pure (.nadd (← a? a) (← a? b))
+  | ["nscale", a, k] | ["nscaleb", a, k] => do pure (.nscale (← a? a) (← int? k))
+  | ["nset", a, i, k] | ["nsetb", a, i, k] => do pure (.nset (← a? a) (← int? i) (← int? k))
+  | ["nget", a, i] | ["ngetb", a, i] => do pure (.nget (← a? a) (← int? i))
+  | ["nnorms", a] | ["nnormsb", a] => do pure (.nnorms (← a? a))
+  | ["naxpy", a, k, b] | ["naxpyb", a, k, b] => do pure (.naxpy (← a? a) (← int? k) (← a? b))
+  | ["nadd", a, b] | ["naddb", a, b] => do pure (.nadd (← a? a) (← a? b))
   | ["nnew", a, b, k] => do pure (.nnew (← a? a) (← a? b) (← int? k))
   | ["nint", a, k] => do pure (.nint (← a? a) (← int? k))
-  | ["nrun", a] => do pure (.nrun (← a? a))
+  | ["ndt", a, b, dt, lay] => do
+      let (code, special) ← dtype? dt
+      pure (.ndt (← a? a) (← a? b) code (← lay? lay) special)
+  | ["nvscale", x, k] => do pure (.nvscale (← x? x) (← int? k))
+  | ["nrun", a] | ["nrunb", a] => do pure (.nrun (← a? a))
   | _ => none
 
 def tseg? (sg : String) : Option TOp :=
